@@ -3,6 +3,8 @@ import _ledgerquery as lq
 
 
 def run(ctx):
+    if ctx.replay_in:
+        lq.replay_mode(ctx)
     try:
         lq.standard(ctx, "C40", ("LedgerQuery_C40.cfg", "LedgerQuery_C40t.cfg"), ["Submit:ok", "Restart"], {"views", "history"},
                     tv=({"ntraces": 3, "nsteps": 40}, {"ntraces": 10, "nsteps": 80}), extra=long_chain,
